@@ -32,7 +32,11 @@ type splitChoice struct {
 
 func (e *Engine) GenFunc(key string) (vcs []*VC, res *FuncResult) {
 	con := e.Contracts[key]
-	fn := e.funcByString(key)
+	fnKey := key
+	if i := strings.Index(key, "#"); i >= 0 {
+		fnKey = key[:i]
+	}
+	fn := e.funcByString(fnKey)
 	res = &FuncResult{Key: key, Contract: con}
 	if fn != nil {
 		res.Short = shortFn(fn)
@@ -119,6 +123,7 @@ func (e *Engine) setup(fn *ssa.Function, con *Contract, choice []splitChoice) *f
 	vc.X = x
 	IntDefs = map[string]*Term{}
 	x.wrapSigned = con.Opts["wrap-signed"] != ""
+	x.assumeCalleePre = con.Opts["assume-callee-pre"] != ""
 	x.opaque = map[string]bool{}
 	for _, n := range strings.Split(con.Opts["opaque"], ",") {
 		if n = strings.TrimSpace(n); n != "" {
@@ -127,9 +132,13 @@ func (e *Engine) setup(fn *ssa.Function, con *Contract, choice []splitChoice) *f
 	}
 	vc.Assume(Ge(x.top0, IntLit(0)))
 	var params []*Val
-	for _, p := range fn.Params {
+	for pi, p := range fn.Params {
 		s := e.SortOf(p.Type())
-		var t *Term = Var(p.Name(), s)
+		pname := p.Name()
+		if pname == "_" || pname == "" {
+			pname = fmt.Sprintf("blank$%d", pi)
+		}
+		var t *Term = Var(pname, s)
 		for _, ch := range choice {
 			sp := ch.sp
 			if sp == nil {
@@ -146,10 +155,31 @@ func (e *Engine) setup(fn *ssa.Function, con *Contract, choice []splitChoice) *f
 				} else {
 					t = IntLit(ch.val)
 				}
+			} else if sp.E.Kind == "field" && sp.E.Args[0].Kind == "ident" && sp.E.Args[0].Name == p.Name() && len(s.Fields) > 0 {
+				// split on a field of a struct-valued parameter
+				fs := make([]*Term, len(s.Fields))
+				for fi, f := range s.Fields {
+					fs[fi] = StructSel(t, fi)
+					if f.Name == sp.E.Name {
+						if f.S.K == KBV {
+							fs[fi] = BVBig(big.NewInt(ch.val), f.S.W)
+						} else {
+							fs[fi] = IntLit(ch.val)
+						}
+					}
+				}
+				t = MkStruct(s, fs...)
 			}
 		}
 		vc.Assume(x.typeConstraint(t, p.Type()))
 		vc.Assume(x.existing(t, p.Type()))
+		if con.SafetyOnly && strings.HasSuffix(con.Key, "#sweep") {
+			if _, isPtr := p.Type().Underlying().(*types.Pointer); isPtr {
+				// jq values and receivers handed to registered functions are never nil pointers
+				vc.Assume(Neq(t, IntLit(0)))
+				e.Note("sweep contracts assume pointer-typed arguments (receivers, *big.Int values) are non-nil")
+			}
+		}
 		params = append(params, &Val{T: t, Ty: p.Type()})
 		vc.Inputs = append(vc.Inputs, InputVar{Name: p.Name(), T: t, Ty: p.Type()})
 	}
@@ -157,6 +187,9 @@ func (e *Engine) setup(fn *ssa.Function, con *Contract, choice []splitChoice) *f
 	for _, fv := range fn.FreeVars {
 		v := x.freshVal("free$"+fv.Name(), fv.Type())
 		vc.Assume(x.existing(v.T, fv.Type()))
+		if _, isPtr := fv.Type().Underlying().(*types.Pointer); isPtr && v.T != nil {
+			vc.Assume(Neq(v.T, IntLit(0))) // a captured variable is referenced through its (non-nil) address
+		}
 		free = append(free, v)
 	}
 	fr := x.newFrame(fn, nil, params, free, con)
